@@ -801,10 +801,12 @@ func (ps *PruningStorer) changeEpochWithExisting(epoch uint32) error {
 
 	for _, p := range persisters {
 		if p.getIsClosed() {
-			_, err = ps.persisterFactory.Create(p.path)
+			var persister storage.Persister
+			persister, err = ps.persisterFactory.Create(p.path)
 			if err != nil {
 				return err
 			}
+			p.setPersisterAndIsClosed(persister, false)
 		}
 
 		activePersisters = append(activePersisters, p)
